@@ -71,6 +71,8 @@ def _run_sym(env, tool, args, fs):
     it.call_hook = hook
     it.step_limit = 30000000
     it.steps = 0
+    old_while = it.while_limit
+    it.while_limit = None          # (a limit left behind by an assembler run must not cut a long tape short)
     try:
         main = it.get(tool, "main")
         ns = Obj(_NS, dict(args))
@@ -85,6 +87,7 @@ def _run_sym(env, tool, args, fs):
     finally:
         it.call_hook = old_hook
         it.step_limit = None
+        it.while_limit = old_while
     r.stdout = list(it.stdout)
     r.fs = {k: list(v) for k, v in it.fs.items()}
     r.writes = list(it.fs_writes)
